@@ -514,20 +514,31 @@ impl ContinuityStore {
 
         let mut tail_bytes = INITIAL_TAIL_BYTES;
         while tail_bytes <= MAX_TAIL_BYTES {
-            match self.stream_cache.scan_tail_messages_runs_v1(
-                continuity_id,
-                MAX_TAIL_EVENTS,
-                tail_bytes,
-            ) {
+            // The messages+runs tail and the full sidecar's head are read as one view: an append
+            // updates the two caches one after the other under the seq lock, and a head that is
+            // one message ahead of the tail puts the next message inside `from_seq`.
+            let (tail, full_head_seq) = {
+                #[cfg(rip_verif)]
+                rip_kernel::verif::lock_point("cont.next_seq", &|| self.next_seq.try_lock().is_ok());
+                let _next_seq = self.next_seq.lock().expect("continuity seq mutex");
+                let tail = self.stream_cache.scan_tail_messages_runs_v1(
+                    continuity_id,
+                    MAX_TAIL_EVENTS,
+                    tail_bytes,
+                );
+                let full_head_seq = self
+                    .stream_cache
+                    .try_read_last_seq(continuity_id)
+                    .ok()
+                    .flatten();
+                (tail, full_head_seq)
+            };
+            match tail {
                 Ok(Some(tail)) => {
                     if !tail.events.is_empty() {
                         // Prefer the full continuity sidecar's head seq so `from_seq` matches the
                         // truth stream even when the mr sidecar omits non-message events.
-                        let head_seq = self
-                            .stream_cache
-                            .try_read_last_seq(continuity_id)
-                            .ok()
-                            .flatten()
+                        let head_seq = full_head_seq
                             .or_else(|| tail.events.last().map(|event| event.seq))
                             .unwrap_or_default();
 
